@@ -303,6 +303,15 @@ def _r3(repo, L, m, ba):
             if not rec:
                 ok, why = False, f"premise {who} is applied but not returned: the caller keeps the result in the contig's owner list and later cuts a row that is no longer there (or counts an owner that is gone)"
     L.check(ok and n >= 3, "R3", mf.short, "every applied premise is appended to the returned list", why or f"only {n} apply sites", mf.loc())
+    # at most one premise applied per contig per round
+    loops = [x for x in mf.node.body if isinstance(x, ast.For)]
+    ok1, why1 = len(loops) == 1, "loop over the contigs' premise lists not found"
+    if ok1:
+        for p in PathEnum((0, 1), exc_edges=False).block(loops[0].body):
+            k = len([c for _, c in path_calls(p, lambda c: isinstance(c.func, ast.Attribute) and c.func.attr == "apply" and not c.args)])
+            if k > 1:
+                ok1, why1 = False, f"one round can apply {k} premises for the same contig ({p.describe()}): the contig is discarded from two results at once; with two owners it disappears from both, is still recorded as found and is never re-added — sequence lost"
+    L.check(ok1, "R3", mf.short + ":one-per-contig", "at most one premise applied per contig per round", why1, mf.loc())
     rets = [r for r in walk_shallow(mf.node) if isinstance(r, ast.Return)]
     appended_to = {norm(c.func.value) for c in repo.calls_in(mf) if isinstance(c.func, ast.Attribute) and c.func.attr == "append" and c.args and "prem" not in norm(c.func.value)}
     L.check(len(rets) == 1 and norm(rets[0].value) in appended_to, "R3", mf.short + ":return", "returns the list of applied premises", "make_fixes does not return the list the applied premises were appended to", mf.loc())
@@ -409,6 +418,13 @@ def _r4(repo, L, m, ba):
     L.check(bool(okq), "R4", qc.short + ":raise", "raises whenever an error message accumulated", "QC does not end in `if <message>: raise`: detected problems are not turned into an error", qc.loc())
     if msgv is None:
         return
+    # every normally-returning path passes through the final test (no early exit that skips checks)
+    early = None
+    for p in paths(qc, (0, 1), exc_edges=False):
+        if p.status == "return" and not any(e.kind == "cond" and e.node is raises[-1].test for e in p.events):
+            early = p
+            break
+    L.check(early is None, "R4", qc.short + ":no-early-exit", "every accepting path evaluates the final `if <message>: raise`", f"QC can return before its final test ({early.describe() if early else ''}): the remaining checks are skipped on that path, so e.g. an overlap on one side compensated by a hole on the other is accepted", qc.loc(), witness={"pieces": "ctg:1-40000 and ctg:35001-65000 of a 70000 bp contig (overlap 5000, hole 5000: lengths still sum up)"})
     init = [n for n in qc.node.body if isinstance(n, ast.Assign) and is_name(n.targets[0], msgv)]
     L.check(len(init) == 1 and try_fold(init[0].value, default=None) == "", "R4", qc.short + ":init", "message starts empty", "QC message does not start empty / is reset", qc.loc())
     resets = [n for n in walk_shallow(qc.node) if isinstance(n, ast.Assign) and is_name(n.targets[0], msgv) and n not in init]
